@@ -284,3 +284,44 @@ pub fn kinds(t: &Ty, out: &mut std::collections::BTreeMap<&'static str, u64>) {
         _ => {}
     }
 }
+
+/// Values whose encoding reaches the storage through *block writes* (`try_extend`: str and bytes
+/// payloads) that end just before, exactly on and just after the 254-byte COBS block boundaries,
+/// alone, preceded by single-byte pushes, and split over two block writes.
+pub fn block_write_boundary_vals(r: &mut Rng, thorough: bool) -> Vec<(Ty, Val)> {
+    let mut out = Vec::new();
+    let mut lens: Vec<usize> = Vec::new();
+    for c in [254usize, 508, 762] {
+        for d in 0..=(if thorough { 8 } else { 6 }) {
+            lens.push(c - d);
+        }
+        lens.push(c + 1);
+        lens.push(c + 2);
+    }
+    for &l in &lens {
+        // zero-free text and bytes: the payload is one block write after a 2-byte length prefix
+        out.push((Ty::Str, Val::Str(vec![b'x'; l])));
+        let nz: Vec<u8> = (0..l).map(|i| (i % 255 + 1) as u8).collect();
+        out.push((Ty::Bytes, Val::Bytes(nz.clone())));
+        // a zero at the start, the end, and somewhere inside
+        for pos in [0, l - 1, r.below(l as u64) as usize] {
+            let mut b = nz.clone();
+            b[pos] = 0;
+            out.push((Ty::Bytes, Val::Bytes(b)));
+        }
+        // k single-byte pushes first, then the block write
+        let k = r.range(1, 4) as usize;
+        let mut ts = vec![Ty::Int(IK::U8); k];
+        ts.push(Ty::Bytes);
+        let mut vs: Vec<Val> = (0..k).map(|_| Val::unsigned(IK::U8, r.range(1, 255) as u128)).collect();
+        vs.push(Val::Bytes(nz[..l - k].to_vec()));
+        out.push((Ty::Tuple(ts), Val::Tuple(vs)));
+        // two block writes; the first ends near the boundary, a byte follows
+        let cut = r.range(1, 100) as usize;
+        out.push((
+            Ty::Tuple(vec![Ty::Bytes, Ty::Str, Ty::Int(IK::U8)]),
+            Val::Tuple(vec![Val::Bytes(nz[..l - cut].to_vec()), Val::Str(vec![b'y'; cut]), Val::unsigned(IK::U8, 7)]),
+        ));
+    }
+    out
+}
